@@ -4,10 +4,54 @@ from harness.lib import op
 
 
 def budget(tier):
-    return 400 if tier == "quick" else 15000
+    return 800 if tier == "quick" else 15000
+
+
+def gen_edge_case(rng):
+    n1, n2 = rng.randint(2, 12), rng.randint(2, 12)
+    def iv(n):
+        k = rng.random()
+        if k < 0.3:
+            return 0, rng.randint(0, n)            # prefix
+        if k < 0.6:
+            return rng.randint(0, n), n            # suffix
+        if k < 0.75:
+            return 0, n                            # whole
+        b = rng.randint(0, n)
+        return b, rng.randint(b, n)
+    b1, e1 = iv(n1)
+    b2, e2 = iv(n2)
+    ops = []
+    for _ in range(rng.randint(1, 3)):
+        ops.append("%d%s" % (rng.randint(0, 3), rng.choice("MIDP")))
+    return {"kind": "edge", "o1": rng.choice("+-"), "o2": rng.choice("+-"), "n1": n1, "n2": n2, "b1": b1, "e1": e1, "b2": b2, "e2": e2,
+            "cigar": "".join(ops)}
+
+
+def edge_ops(case):
+    gfapy = lib.import_gfapy()
+    c = case
+    p = lambda x, n: "%d$" % x if x == n else str(x)
+    e = "E	*	A%s	B%s	%s	%s	%s	%s	%s" % (c["o1"], c["o2"], p(c["b1"], c["n1"]), p(c["e1"], c["n1"]), p(c["b2"], c["n2"]), p(c["e2"], c["n2"]), c["cigar"])
+    r = lib.outcome(lambda: gfapy.Gfa(["S\tA\t%d\t*" % c["n1"], "S\tB\t%d\t*" % c["n2"], e], vlevel=1, version="gfa2"))
+    if r[0] != "ok":
+        return [], []
+    ed = r[1].edges[0]
+    mop = op("conv.edge", c["o1"], c["n1"], c["b1"], c["e1"], c["o2"], c["n2"], c["b2"], c["e2"], c["cigar"])
+    t = lib.outcome(lambda: ed.to_gfa1_s())
+    if t[0] == "gerr":
+        return [mop], ["none"]
+    if t[0] != "ok":
+        return [], []
+    f = t[1].split("\t")
+    if f[0] == "L":
+        return [mop], ["ok L " + "\t".join(f[1:6])]
+    return [mop], ["ok C " + "\t".join(f[1:5] + [f[6]]) + " pos=" + f[5]]
 
 
 def gen_case(rng, tier, i):
+    if i % 2 == 1:
+        return gen_edge_case(rng)
     nf, nt = rng.randint(2, 12), rng.randint(2, 12)
     ops = []
     for _ in range(rng.randint(1, 3)):
@@ -16,7 +60,7 @@ def gen_case(rng, tier, i):
 
 
 def tags(case):
-    return ["corr:link"]
+    return ["corr:edge" if case.get("kind") == "edge" else "corr:link"]
 
 
 def nontrivial(case):
@@ -24,6 +68,8 @@ def nontrivial(case):
 
 
 def model_ops(case):
+    if case.get("kind") == "edge":
+        return edge_ops(case)
     gfapy = lib.import_gfapy()
     nf, nt, c = case["nf"], case["nt"], case["cigar"]
     al = gfapy.Alignment(c, version="gfa1")
